@@ -3,6 +3,7 @@ package sim
 import (
 	"bytes"
 	"fmt"
+	"os"
 	"sort"
 	"strings"
 	"time"
@@ -470,7 +471,11 @@ func (r *runner) checkLin() {
 			recs = append(recs, h.recs...)
 		}
 		if call >= ret {
-			r.viol("wgroup", "wgroup:not-concurrent", fmt.Sprintf("journal record holds writes of %d writers whose calls do not overlap in time", len(hs)))
+			d := ""
+			for _, h := range hs {
+				d += fmt.Sprintf("\n  c%d [%d,%d] %s %d recs failed=%v", h.client, h.call, h.ret, h.desc, len(h.recs), h.failed)
+			}
+			r.viol("wgroup", "wgroup:not-concurrent", fmt.Sprintf("journal record holds writes of %d writers whose calls do not overlap in time:%s", len(hs), d))
 			return
 		}
 		ops = append(ops, porcupine.Operation{ClientId: hs[0].client, Input: linIn{&hop{kind: "write", recs: recs}}, Call: call, Return: ret})
@@ -579,18 +584,42 @@ type groupInfo struct {
 	n     int
 }
 
+// isLarge reports whether DB.Write routes the batch through a transaction.
+func (r *runner) isLarge(h *hop) bool {
+	wb := r.knobs.WriteBuffer
+	if wb <= 0 {
+		wb = 4 << 20
+	}
+	if h.desc != "write" || r.knobs.DisableLargeBatchTx {
+		return false
+	}
+	size := 0
+	for _, rc := range h.recs {
+		size += len(rc.Key) + 8
+		if !rc.Del {
+			size += rc.Val.Len
+		}
+	}
+	return size > wb
+}
+
+func recEq(a Rec, b decode.BatchRec, id uint32, okID bool) bool {
+	if a.Del != b.Del || !bytes.Equal(a.Key, b.Key) {
+		return false
+	}
+	if a.Del {
+		return true
+	}
+	return okID && a.Val.ID == id
+}
+
 func (r *runner) journalGroups() *groupInfo {
 	gi := &groupInfo{ofHop: map[*hop]int{}, pos: map[*hop]int{}}
 	cs := r.cs
-	// value id -> writing hop
-	byVal := map[uint32]*hop{}
+	var writes []*hop
 	for _, h := range cs.hist {
-		if h.kind == "write" {
-			for _, rc := range h.recs {
-				if !rc.Del {
-					byVal[rc.Val.ID] = h
-				}
-			}
+		if h.kind == "write" && !h.tx {
+			writes = append(writes, h)
 		}
 	}
 	var nums []int64
@@ -617,7 +646,8 @@ func (r *runner) journalGroups() *groupInfo {
 			first = false
 			lastEnd = seq + uint64(len(brecs))
 			g++
-			members := map[*hop]bool{}
+			ids := make([]uint32, len(brecs))
+			oks := make([]bool, len(brecs))
 			for i, br := range brecs {
 				if br.Del {
 					continue
@@ -627,22 +657,79 @@ func (r *runner) journalGroups() *groupInfo {
 					r.viol("wgroup", "wgroup:invented", fmt.Sprintf("journal holds a value that no writer wrote (key %q)", br.Key))
 					return gi
 				}
+				ids[i], oks[i] = id, true
 				seenVal[id]++
 				if seenVal[id] > 1 {
 					r.viol("wgroup", "wgroup:duplicated", fmt.Sprintf("value id %d (key %q) was logged twice", id, br.Key))
 					return gi
 				}
-				if h := byVal[id]; h != nil {
-					if !members[h] {
-						members[h] = true
-						gi.pos[h] = i
-					}
-					gi.ofHop[h] = g
+			}
+			// Segment the record into the batches of individual writers:
+			// batches are appended whole in merge order, and each client's
+			// writes reach the journal in program order, so at any point the
+			// candidates are the clients' next not yet attributed writes.
+			matchAt := func(h *hop, p int) bool {
+				if len(h.recs) == 0 || p+len(h.recs) > len(brecs) {
+					return false
 				}
+				for k, rc := range h.recs {
+					if !recEq(rc, brecs[p+k], ids[p+k], oks[p+k]) {
+						return false
+					}
+				}
+				return true
+			}
+			nextOf := func(used map[*hop]bool) []*hop {
+				var out []*hop
+				seenClient := map[int]bool{}
+				for _, h := range writes {
+					if _, done := gi.ofHop[h]; done || used[h] {
+						continue
+					}
+					if seenClient[h.client] {
+						continue
+					}
+					out = append(out, h)
+					// a failed write, or one routed through a transaction,
+					// may be absent from the journal: the client's next
+					// write is a candidate too
+					if !(h.failed || r.isLarge(h)) {
+						seenClient[h.client] = true
+					}
+				}
+				return out
+			}
+			var members []*hop
+			var solve func(p int, used map[*hop]bool, acc []*hop) bool
+			solve = func(p int, used map[*hop]bool, acc []*hop) bool {
+				if p == len(brecs) {
+					members = append([]*hop(nil), acc...)
+					return true
+				}
+				for _, h := range nextOf(used) {
+					if matchAt(h, p) {
+						used[h] = true
+						if solve(p+len(h.recs), used, append(acc, h)) {
+							return true
+						}
+						delete(used, h)
+					}
+				}
+				return false
+			}
+			if !solve(0, map[*hop]bool{}, nil) {
+				r.viol("wgroup", "wgroup:unattributable", fmt.Sprintf("journal record (seq %d, %d entries) cannot be split into whole batches of the writers in their program order", seq, len(brecs)))
+				return gi
+			}
+			p := 0
+			for _, h := range members {
+				gi.ofHop[h] = g
+				gi.pos[h] = p
+				p += len(h.recs)
 			}
 			// every member of a group receives the group's result
 			var res []bool
-			for h := range members {
+			for _, h := range members {
 				if h.done {
 					res = append(res, h.failed)
 				}
@@ -656,32 +743,20 @@ func (r *runner) journalGroups() *groupInfo {
 		}
 	}
 	gi.n = g
-	// every acknowledged journaled write is in exactly one record
-	wb := r.knobs.WriteBuffer
-	if wb <= 0 {
-		wb = 4 << 20
+	if os.Getenv("DEBUGJOURNAL") != "" {
+		for _, n := range nums {
+			recs, stop, clean := decode.Journal(cs.journals[n])
+			fmt.Printf("journal %d: %d bytes, %d records, stop=%d clean=%v\n", n, len(cs.journals[n]), len(recs), stop, clean)
+		}
 	}
-	for _, h := range cs.hist {
-		if h.kind != "write" || !h.done || h.tx {
+	// every acknowledged journaled write is in exactly one record
+	for _, h := range writes {
+		if !h.done || len(h.recs) == 0 {
 			continue
 		}
-		size := 0
-		hasPut := false
-		for _, rc := range h.recs {
-			size += len(rc.Key) + 8 + 4
-			if !rc.Del {
-				size += rc.Val.Len
-				hasPut = true
-			}
-		}
-		if !hasPut {
-			continue
-		}
-		large := size > wb && !r.knobs.DisableLargeBatchTx
 		_, in := gi.ofHop[h]
-		switch {
-		case !h.failed && !in && !large:
-			r.viol("wgroup", "wgroup:lost", fmt.Sprintf("client %d: acknowledged write [%d,%d] is in no journal record", h.client, h.call, h.ret))
+		if !h.failed && !in && !r.isLarge(h) {
+			r.viol("wgroup", "wgroup:lost", fmt.Sprintf("client %d: acknowledged write [%d,%d] (%d records) is in no journal record", h.client, h.call, h.ret, len(h.recs)))
 			return gi
 		}
 	}
@@ -786,6 +861,26 @@ func genConc(prop string, seed uint64, g *gen, thorough bool) *Case {
 				ops = append(ops, Op{K: "compact"})
 			default:
 				ops = append(ops, Op{K: "yield"})
+			}
+		}
+		if prop == "C10" {
+			// identical delete records of different writers cannot be told
+			// apart in the journal: give every delete its own key
+			uniq := func(k B) B {
+				g.nextID++
+				return B(fmt.Sprintf("~d%d", g.nextID))
+			}
+			for i := range ops {
+				switch ops[i].K {
+				case "del":
+					ops[i].Key = uniq(ops[i].Key)
+				case "write":
+					for ri := range ops[i].Recs {
+						if ops[i].Recs[ri].Del {
+							ops[i].Recs[ri].Key = uniq(ops[i].Recs[ri].Key)
+						}
+					}
+				}
 			}
 		}
 		if closer >= 0 {
